@@ -8,3 +8,7 @@ import "github.com/internetarchive/Zeno/pkg/models"
 // VerifC07PostprocessItem exposes postprocessItem (item.go): children added to the item are the
 // assets, the returned items are the outlinks.
 func VerifC07PostprocessItem(item *models.Item) []*models.Item { return postprocessItem(item) }
+
+// VerifC07Postprocess exposes postprocess (postprocessor.go): what the stage worker runs on a seed
+// tree - postprocessItem on every item of the deepest level; the returned items are the outlinks.
+func VerifC07Postprocess(seed *models.Item) []*models.Item { return postprocess("c07", seed) }
